@@ -50,11 +50,13 @@ EP_URL = "http://sim.test/sparql"
 # generation
 # ---------------------------------------------------------------------------
 
-def _gen_shaper(rng, triples, source, ns_pressure, bnodes=False):
+def _gen_shaper(rng, triples, source, ns_pressure, bnodes=False, tp=gen.RDF_TYPE):
     sp = {"source": source}
     # selectors over local sources are evaluated on an rdflib re-parse, which relabels blank nodes randomly
-    sp["target"] = gen.gen_target(rng, triples, allow_shape_map=(not bnodes and source in ("raw", "file", "rdflib", "endpoint")))
+    sp["target"] = gen.gen_target(rng, triples, allow_shape_map=(not bnodes and source in ("raw", "file", "rdflib", "endpoint")), type_prop=tp)
     o = gen.gen_options(rng, allow_inverse=True, allow_disable_comments=True)
+    if tp != gen.RDF_TYPE:
+        o["instantiation_property"] = tp
     if rng.random() < 0.15:
         o["examples_mode"] = rng.choice(["all", "shape", "cons"])
     if rng.random() < 0.15:
@@ -90,11 +92,13 @@ def generate(rng, tier, index):
     bnodes = (not endpoint_ok and rng.random() < 0.2)
     triples = gen.gen_graph(rng, n_nodes=n_nodes, n_classes=rng.randint(1, 3), n_props=rng.randint(1, 5),
                             bnodes=bnodes, kinds=kinds)
+    tp = gen.CUSTOM_TYPE if rng.random() < 0.12 else gen.RDF_TYPE
+    triples = gen.retype(gen.ensure_class(triples), tp)
     # rdflib-parsed sources (url) relabel blank nodes on every pass (C08's stated exception): no bnodes there
     sources = ["raw", "file", "rdflib"] + ([] if bnodes else ["url"]) + (["endpoint", "endpoint"] if endpoint_ok else [])
     n_sh = 2 if rng.random() < 0.4 else 1
     pressure = 0.25
-    shapers = [_gen_shaper(rng, triples, rng.choice(sources), pressure, bnodes) for _ in range(n_sh)]
+    shapers = [_gen_shaper(rng, triples, rng.choice(sources), pressure, bnodes, tp) for _ in range(n_sh)]
     share = {}
     if n_sh == 2:
         if rng.random() < 0.6:
